@@ -11,6 +11,8 @@ pub mod p01_accessors;
 pub mod p02_queries;
 pub mod p03_flat;
 pub mod p04_container;
+pub mod dirty;
+pub mod p05_p16_dirty;
 pub mod p09_bitmap;
 pub mod p19_address;
 pub mod p20_endian;
@@ -23,7 +25,9 @@ pub fn properties() -> Vec<Property> {
         p02_queries::property(),
         p03_flat::property(),
         p04_container::property(),
+        p05_p16_dirty::property_c05(),
         p09_bitmap::property(),
+        p05_p16_dirty::property_c16(),
         p19_address::property(),
         p20_endian::property(),
     ]
